@@ -2,6 +2,10 @@
 
 PROPS = {
     "C20": {
+        "claim": "Every conversion is proved equal to its mathematical definition on its whole domain: the scalar functions are re-translated from Go SSA to Lean BitVec definitions on every run and proved by kernel-checked decide over all 256 / 1024 / 2^bits inputs; string decoders, checksum and the duration codec are hand models with theorems for every length (induction), tied to the code by an exhaustive differential run.",
+        "note": "trusted: Lean kernel, ssagen/factgen translators, the correspondence harness; Go float division on whole seconds assumed exact (exhaustively cross-checked in the thorough tier)",
+        "technique": "Lean 4 proof (decide +kernel on regenerated SSA translation; induction for list functions) + exhaustive differential correspondence",
+        "ref": "§5 C20",
         "proofs": ["Bmc.Proofs.C20"],
         "scenarios": ["c20"],
         "rule": "exhaustive over every byte for the 13 scalar functions, every value of every width 1..12 (thorough: 1..16) for two's "
@@ -14,5 +18,19 @@ PROPS = {
                      "correspondence; the 20 loop-free scalar functions are regenerated from SSA on every run"],
         "assumptions": ["float division of a whole number of seconds by a whole unit followed by truncation equals integer division "
                         "(rollingAvgPeriodByte); checked by the exhaustive thorough run"],
+    },
+    "C08": {
+        "claim": "Round-trip theorems in Lean over the encode/decode models: IPMI message for every NetFn class and every payload (decode(encode) = value with computed checksums, re-encode = same bytes), AES-128-CBC layer for every lawful block cipher, key, IV and message of every length (CBC inversion by induction on blocks, pad arithmetic for every length), v2.0 wrapper without trailer incl. OEM descriptor; the authenticated trailer of the v2.0 wrapper, the v1.5 wrapper and RAKP 1 are so far covered by the correspondence run only (partial). Models are tied to the code by serialising through gopacket.SerializeLayers for every payload length 0..200 (thorough 0..480), all integrity algorithms, and comparing bytes with the model's; the Go side also checks decode(serialise) = value and re-serialise = same bytes directly.",
+        "note": "trusted: Lean kernel; hand-written encode/decode models tied by byte-exact correspondence; HMAC/AES of Go's crypto library assumed lawful (decBlock inverts encBlock, fixed output lengths); gopacket SerializeBuffer modelled as list concatenation",
+        "technique": "Lean 4 proof (round-trip theorems by simp/omega/induction over abstract lawful crypto) + byte-exact differential correspondence of serialisers",
+        "ref": "§5 C08",
+        "proofs": ["Bmc.Proofs.C08"],
+        "scenarios": ["rt"],
+        "rule": "message: 7 NetFn classes x every payload length 0..200 (thorough 0..480); v2 wrapper: 4 integrity algorithms x authenticated/not x payload "
+                "types incl. OEM x every payload length; AES: every message length; all field values random per op. Non-trivial = every op (each "
+                "serialises, decodes, compares and re-serialises); distinct = distinct op line.",
+        "modelled": ["Message.encode/decode, V2Session.encode/decode, AESLayer.encode/decode are hand models; gopacket's SerializeBuffer and "
+                     "crypto/{hmac,aes,cipher} are modelled/assumed, not verified"],
+        "assumptions": ["crypto/rand replaced by a fixed reader in the harness so that the IV is an input"],
     },
 }
